@@ -145,31 +145,34 @@ def qualItems (U : UnicodeOps) : List Str → Quals → Res PErr Quals
 def decodeQualifiers (U : UnicodeOps) (s : Str) (q : Quals) : Res PErr Quals :=
   qualItems U (splitOn '&' s) q
 
+/-- parse.rs:182-188: cut off and decode the subpath. -/
+def splitSubpath (s : Str) : Except PErr (Str × Str) :=
+  match rsplitOnce '#' s with
+  | some (s', sub) =>
+    match decodeSubpath sub with
+    | .error e => .error e
+    | .ok d => .ok (s', d)
+  | none => .ok (s, [])
+
+/-- parse.rs:190-196: cut off and decode the qualifiers. -/
+def splitQuals (U : UnicodeOps) (s : Str) : Res PErr (Str × Quals) :=
+  match rsplitOnce '?' s with
+  | some (s', qs) =>
+    match decodeQualifiers U qs [] with
+    | .error f => .error f
+    | .ok q => .ok (s', q)
+  | none => .ok (s, [])
+
 /-- parse.rs:172-207: everything before `T::from_str`.
 Returns the type substring, the remaining path and the parts filled so far. -/
 def parsePre (U : UnicodeOps) (s : Str) : Res PErr (Str × Str × Parts) :=
   match stripPrefix schemePrefix s with
   | none => fail .unsupportedUrlScheme
   | some s =>
-    let s := trimStart '/' s
-    let r1 : Except PErr (Str × Str) :=
-      match rsplitOnce '#' s with
-      | some (s', sub) =>
-        match decodeSubpath sub with
-        | .error e => .error e
-        | .ok d => .ok (s', d)
-      | none => .ok (s, [])
-    match r1 with
+    match splitSubpath (trimStart '/' s) with
     | .error e => fail e
     | .ok (s, subpath) =>
-      let r2 : Res PErr (Str × Quals) :=
-        match rsplitOnce '?' s with
-        | some (s', qs) =>
-          match decodeQualifiers U qs [] with
-          | .error f => .error f
-          | .ok q => .ok (s', q)
-        | none => .ok (s, [])
-      match r2 with
+      match splitQuals U s with
       | .error f => .error f
       | .ok (s, quals) =>
         if s.isEmpty then fail (.missingRequiredField .packageType)
@@ -180,26 +183,30 @@ def parsePre (U : UnicodeOps) (s : Str) : Res PErr (Str × Str × Parts) :=
             if !isValidType ty then fail .invalidPackageType
             else .ok (ty, rest, { quals := quals, subpath := subpath })
 
+/-- parse.rs:211-217: cut off and decode the version. -/
+def splitVersion (rest : Str) : Except PErr (Str × Str) :=
+  match rsplitOnce '@' rest with
+  | some (s', v) =>
+    match decode v with
+    | .error e => .error e
+    | .ok d => .ok (s', d)
+  | none => .ok (rest, [])
+
+/-- parse.rs:220-226: cut off and decode the namespace; returns (name piece, namespace). -/
+def splitNamespace (s : Str) : Except PErr (Str × Str) :=
+  match rsplitOnce '/' s with
+  | some (ns, n) =>
+    match decodeNamespace ns with
+    | .error e => .error e
+    | .ok d => .ok (n, d)
+  | none => .ok (s, [])
+
 /-- parse.rs:211-228: version, namespace, name. -/
 def parsePost (rest : Str) (parts : Parts) : Except PErr Parts :=
-  let r1 : Except PErr (Str × Str) :=
-    match rsplitOnce '@' rest with
-    | some (s', v) =>
-      match decode v with
-      | .error e => .error e
-      | .ok d => .ok (s', d)
-    | none => .ok (rest, [])
-  match r1 with
+  match splitVersion rest with
   | .error e => .error e
   | .ok (s, version) =>
-    let r2 : Except PErr (Str × Str) :=
-      match rsplitOnce '/' s with
-      | some (ns, n) =>
-        match decodeNamespace ns with
-        | .error e => .error e
-        | .ok d => .ok (n, d)
-      | none => .ok (s, [])
-    match r2 with
+    match splitNamespace s with
     | .error e => .error e
     | .ok (name, ns) =>
       match decode name with
